@@ -29,4 +29,4 @@ Separate Extraction
   Pkce.code_verifier Pkce.code_challenge Pkce.oauth_start_pkce
   GoPath.location_header SignOutRace.run SignOutRace.init SignOutRace.both_done StampRace.run StampRace.init StampRace.is_served Upstream.route Upstream.route_gen Upstream.first_match Upstream.less Upstream.forwarded_query Symbolic.auth_request_shape Compose.serve_request Lifetime.redeem_fallbacks Lifetime.request_nonrefreshing RefreshChain.chain_run GenericProvider.generic_login GenericProvider.generic_validate LegacyHeaders.legacy_request_headers LegacyHeaders.legacy_response_headers
   Proxy.serve Proxy.session_chain Proxy.discloses
-  Probe.probe.
+  Probe.probe Pkce.method_of_string.
